@@ -59,6 +59,7 @@ Proof.
   assert (Hw : white_space ((c :: name) ++ rest) = CNone).
   { unfold white_space. cbn [app span]. rewrite (keyc_not_space c Hc). reflexivity. }
   rewrite Hw.
+  change (Z.min 0 1) with 0%Z.
   rewrite (lit_key_rest (c :: name) rest prev Hn Hs). cbn [length]. reflexivity.
 Qed.
 
